@@ -41,7 +41,7 @@ Definition tdiff (s gone : list nat) : list nat := filter (fun x => negb (exists
 Definition change_tags (s new gone : list nat) : list nat := tdiff (tunion s new) gone.
 
 Record e2s := E2S { started : bool; tagstack : list (list nat); now : option nat }.
-Definition e2s0 : e2s := E2S false [] None.                                  (* __init__: _started = False, __now = None, no _tags yet *)
+Definition e2s0 : e2s := E2S false [[]] None.                                (* __init__: _started = False, __now = None, _tags = TagContext() *)
 Definition current_tags (s : e2s) : list nat := match tagstack s with c :: _ => c | [] => [] end.
 Definition now_ts (s : e2s) : option nat := Some (match now s with Some t => t | None => wall end).   (* _now() *)
 
@@ -75,11 +75,12 @@ Definition word_of (o : outcome) : status :=
 
 (* startTestRun: CopyStreamResult forwards, then tags / __now / _started are reset *)
 Definition start_run (s : e2s) : e2s * list mev := (E2S true [[]] None, [MStartRun]).
-(* _ensure_started: if not self._started: now = self.__now; self.startTestRun(); self.__now = now
-   - a time() supplied before the run starts itself survives the implicit start *)
+(* _ensure_started: if not self._started: now = self.__now; tags = self._tags; self.startTestRun();
+   self.__now = now; self._tags = tags - a time() and the tags supplied before the run starts itself
+   survive the implicit start *)
 Definition ensure_started (s : e2s) : e2s * list mev :=
   if started s then (s, [])
-  else let (s1, out) := start_run s in (E2S (started s1) (tagstack s1) (now s), out).
+  else let (s1, out) := start_run s in (E2S (started s1) (tagstack s) (now s), out).
 
 (* _convert *)
 Definition convert (s : e2s) (o : outcome) (i : nat) (details : option (list detail)) (reason : option string)
@@ -97,7 +98,7 @@ Definition e2s_step (s : e2s) (o : op) : e2s * list mev :=
   | OTags new gone =>
       match tagstack s with
       | c :: r => (E2S (started s) (change_tags c new gone :: r) (now s), [])
-      | [] => (s, [])                                  (* tags() before any startTestRun: AttributeError; not wf *)
+      | [] => (s, [])                                  (* unreachable: there is a TagContext from __init__ on *)
       end
   | OStartTest i =>
       let (s1, out) := ensure_started s in
